@@ -40,7 +40,7 @@ func c04() {
 	o, ts := mustTargets(run)
 	allArch := o.AllAuditArch()
 
-	nRandom := run.N(300, 6000)
+	nRandom := run.N(2400, 30000)
 	// size sweep: one-group name lists whose length steps jumpN through 255/256
 	type sweep struct {
 		t *vlib.Target
@@ -322,7 +322,7 @@ func c04KernelTier(run *vlib.Run, o *vlib.Oracles, ts []*vlib.Target) {
 		return ""
 	}
 	st := &kernelStats{outcomes: map[string]int64{}, perABI: map[string]int64{}, shapes: map[string]bool{}}
-	n := run.N(24, 300)
+	n := run.N(60, 900)
 	vlib.Parallel(n, func(i int) {
 		r := caseRand(run, 3000000+i)
 		var coinciding []string // x86_64 names whose numbers are the i386 numbers of the probes
